@@ -25,6 +25,7 @@ type gen struct {
 	dist map[string]int
 	// smp profile: craft the degenerate SMP message 2 in the next deviant scenario
 	forceDegenerate bool
+	forcePlusQ *[2]int // smp profile: next deviant = exponent field [1] of SMP TLV type [0] increased by the group order q
 	// pure profile: number of piece-count boundary cases emitted so far (fragCountEdge)
 	fragEdges int
 }
